@@ -260,6 +260,22 @@ CHECKS['C12'] = dict(
    technique="TLA+ generator with content contract (TLC) + spec->code content replay + code->spec trace validation of the layout",
    ref="5/C12")
 
+CHECKS['C11'] = dict(
+   text="Round trip (spec->code): Extract.tla builds every embedding left context (start of line, blanks, text, complete HTML tags with "
+        "quoted and unquoted attributes, css context) . optional prefix . valid abbreviation (elements with attribute sets, text, "
+        "groups, repeaters joined by > + ^; stylesheet abbreviations joined by +) . auto-inserted closing quote/brackets . tail, up to "
+        "the bound and simulated beyond, with the expected record; it contains a faithful transcription of the backward scan and of the "
+        "is_html() heuristic, TLC checks that this as-is machine extracts exactly the embedded abbreviation whenever the heuristic "
+        "does not fire inside it, and the flag 'heuristic fires inside the abbreviation' travels with every vector. The real extract() "
+        "is called on every vector with and without lookAhead. Consistency (code->spec): extract() is called on every line of "
+        "Strings.tla (22-symbol alphabet) and of an editor corpus at every position -1..len+1 x {markup, stylesheet} x {prefix} x "
+        "{lookAhead}; every result is validated by Trace_Extract.tla (range order, abbreviation = text between location and end, no "
+        "dangling operator, prefix found at start, look-ahead only across one quote and closing brackets).",
+   note="Known findings F17 (tag-end heuristic without '<') and F32 (comma in function arguments, stylesheet) are matched by flags "
+        "the spec computes from the input. Abbreviations with an open bracket are judged with lookAhead only.",
+   technique="TLA+ embedding model + as-is machine (TLC) + spec->code replay + code->spec trace validation",
+   ref="5/C11")
+
 NOT_YET = {}
 
 def main():
